@@ -73,8 +73,11 @@ theorem quoted (args : List Bytes) (rest : Bytes) :
     readArgs (renderLine args ++ nl :: rest) = .ok args false rest :=
   quoted_main args rest
 
--- `` `a "\` is rendered as `"" "a \"" \\ ""`-style text; all 256 byte values are allowed
-example : renderLine [[], [97, 32, dq, bs]] = [dq, dq, sp, dq, 97, 32, bs, dq, dq, bs, bs, dq, dq] := by
+-- the two arguments (empty) and (`a`, space, `"`, `\`) are rendered as  ""  "a \""\\""
+-- (13 bytes); every one of the 256 byte values may occur in an argument
+example :
+    renderLine [[], [97, 32, dq, bs]]
+      = [dq, dq, sp, dq, 97, 32, bs, dq, dq, bs, bs, dq, dq] := by
   decide
 example :
     readArgs ([dq, dq, sp, dq, 97, 32, bs, dq, 10, 0xFF, dq, bs, bs, dq, dq] ++ nl :: [120])
@@ -119,11 +122,12 @@ theorem continuation_readArgs (rest : Bytes) : readArgs (bs :: nl :: rest) = rea
 command. -/
 theorem continuation_words (ws ws' : List Bytes) (hws : ∀ w ∈ ws, PlainWord w)
     (hws' : ∀ w ∈ ws', PlainWord w) (rest : Bytes) :
-    readArgs (List.intercalate [sp] ws ++ sp :: bs :: nl :: List.intercalate [sp] ws' ++ nl :: rest)
+    readArgs (List.intercalate [sp] ws ++
+        sp :: bs :: nl :: (List.intercalate [sp] ws' ++ nl :: rest))
       = .ok (ws ++ ws') false rest := by
   obtain ⟨s1, e1, a1, r1⟩ := words_aux ws hws [] none
-    (sp :: bs :: nl :: List.intercalate [sp] ws' ++ nl :: rest)
-  rw [List.append_assoc, readArgs, r1, step_blank (by decide) (Or.inl rfl), continuation _ _ rfl]
+    (sp :: bs :: nl :: (List.intercalate [sp] ws' ++ nl :: rest))
+  rw [readArgs, r1, step_blank (by decide) (Or.inl rfl), continuation _ _ rfl]
   obtain ⟨s2, e2, a2, r2⟩ := words_aux ws' hws' s1.done s1.cur (nl :: rest)
   rw [r2, step_nl (by simp [e2]), a2]
   have : St.args ⟨s1.done, s1.cur, false, true⟩ = s1.args := rfl
@@ -217,9 +221,11 @@ theorem inject_named (pre post : List Bytes) (d k v : Bytes)
   · rw [List.getElem?_append_right (by omega), hlen, Nat.sub_self]; rfl
   · have hdrop : (injectSets 0 pre ++ (k, v) :: injectSets (0 + (positionals pre).length) post).drop
         (pre.length + 1) = injectSets (0 + (positionals pre).length) post := by
-      rw [← hlen, ← List.length_singleton (a := (k, v)), ← List.length_append,
-        ← List.append_cons]
-      exact List.drop_left
+      have e : injectSets 0 pre ++ (k, v) :: injectSets (0 + (positionals pre).length) post
+          = (injectSets 0 pre ++ [(k, v)]) ++ injectSets (0 + (positionals pre).length) post := by
+        simp
+      rw [e]
+      exact List.drop_left' (by simp [hlen])
     rw [hdrop] at hlast
     exact lookupLast_append_some k v _ _ (lookupLast_cons_eq k v _ (lookupLast_none k _ hlast))
 
@@ -236,10 +242,9 @@ example :
   inject_positional_all _ (by decide) (by decide) 1
 example :
     lookupLast [107]
-      (inject ([[97], [45, 45, 107, 61, 118], [98], [107, 50, 61]] ++
-        ([45] ++ [107] ++ eq :: [119]) :: [])).1 = some [119] :=
-  (inject_named [[97], [45, 45, 107, 61, 118], [98], [107, 50, 61]] [] [45] [107] [119]
-    (by decide) (by decide) (by decide) (by decide) (by simp [inject, separateArgs_none, injectSets_append,
-      length_injectSets])).2
+      (inject ([[97], [45, 45, 107, 61, 118], [98]] ++
+        ([45] ++ [107] ++ eq :: [119]) :: [[107, 50, 61]])).1 = some [119] :=
+  (inject_named [[97], [45, 45, 107, 61, 118], [98]] [[107, 50, 61]] [45] [107] [119]
+    (by decide) (by decide) (by decide) (by decide) (by decide)).2
 
 end Goat.C17
